@@ -324,7 +324,7 @@ pub fn run_prop(e: &Engine) {
     e.campaign(
         "fault-points",
         rule,
-        e.tier.pick(120, 6000),
+        e.tier.pick(120, 3000),
         || strategy(1),
         render,
         check_scenario,
